@@ -401,12 +401,12 @@ def c04(ck):
 @check("C05", design_ref="4 C05, App. E",
        technique="TLA+ parser model with an unbounded-integer layer as the statement of what SML literals denote; trace validation of real parses of a systematic literal x type x position matrix",
        text="SmlParser.tla states, with its own arithmetic, what every literal denotes for every item type (bases 2/8/10/16 in either case, signs, ranges "
-            "of all widths, character codes, quoted strings as the characters between the quotes, T/F) and when it is an error. Every one of ~100 "
+            "of all widths, character codes, quoted strings as the characters between the quotes, T/F) and when it is an error. Every one of ~360 "
             "boundary literals is placed alone, first and second in an item of each of the 13 non-list types (plus random texts); TLC checks that the "
             "real parser reports an error iff the specification does and otherwise returns exactly the denoted values in items of the written types.",
        note=SML_NOTE + "; declared freedoms: a leading-zero integer (010) is read as octal by integers and decimal by floats; +5 is refused for unsigned items - both as the code does today, the drivers include them and the specification follows the code")
 def c05(ck):
-    ck.rule.append("13 types x 101 literals x 3 positions x random letter case, plus random plausible texts; non-trivial = every event; distinct by text")
+    ck.rule.append("13 types x about 360 literals (every range boundary of every width and its neighbours in bases 2, 8, 10, 16 and the 0-prefixed octal form, both signs; floats; strings; codes; T/F; variables) x 3 positions x random letter case, plus random plausible texts; non-trivial = every event; distinct by text")
     ck.trace("lit", "lit", ["-n", q(ck, 500, 20000)], "TraceSml", "TraceSml.cfg", ["InvC05"], agree=["InvAgreeParse"], key=SML_KEY)
     ck.assumptions.append(SML_NOTE)
 
